@@ -67,12 +67,15 @@ class Prop(PropBase):
                        "seed": rng.randrange(1 << 30)}
         # long signals, fractional offsets far from both ends: the interpolation is over the WHOLE signal (a windowed
         # approximation differs by 1e-4..1e-3 of the rms there)
-        for _ in range(4 if quick else 60):
+        for j in range(8 if quick else 60):
             L = rng.choice([9001, 12000, 16384])
             n = rng.choice([1, 7, 64])
             t = rng.randint(4200, L - n - 4200) + rng.choice([0.5, 0.25, 0.731])
+            # (seed % 4 picks the form n is passed in: every form occurs, the 8-bit NumPy scalar — whose arithmetic with the offset
+            # must not stay 8 bits wide — in every other case)
             yield {"op": "snip", "cls": rng.choice(["Signal", "BasebandSignal"]), "L": L, "rate": ("1", "kHz"), "t0": sigs.T0S[0],
-                   "t": t, "n": n, "form": "float", "unit": "s", "seed": rng.randrange(1 << 30)}
+                   "t": t if j % 4 else float(int(t)), "n": n, "form": "float", "unit": "s",
+                   "seed": rng.randrange(1 << 28) * 4 + (3 if j % 2 else (j // 2) % 4)}
 
     # ------------------------------------------------------------- real code
     def _mk(self, case):
